@@ -474,6 +474,14 @@ func (m *Manager) TerminateSession(ctx context.Context, sessionID string, reason
 		return fmt.Errorf("session not found: %s", sessionID)
 	}
 
+	if session.State == StateTerminating {
+		// Another TerminateSession call has already marked this session and is
+		// releasing what it holds; ending it a second time must have no
+		// further effect (no second release of its addresses).
+		m.mu.Unlock()
+		return nil
+	}
+
 	oldState := session.State
 	session.State = StateTerminating
 	session.StateReason = string(reason)
